@@ -765,6 +765,13 @@ func cmdBSI(args []string) {
 	first := fs.Int("first", 1, "first trace id")
 	only := fs.Int("only", 0, "only this trace")
 	prof := fs.String("profile", "update", "update (C19) | query (C20)")
+	scripts := fs.String("scripts", "", "ndjson scripts generated by TLC from MCBSI.tla (replay mode)")
+	mod := fs.Int("mod", 1, "shard count (replay mode)")
+	rem := fs.Int("rem", 0, "shard index (replay mode)")
+	sample := fs.Float64("sample", 1.0, "fraction of scripts to run (replay mode)")
+	opf := fs.String("opfilter", "all", "replay mode: all | update | query")
+	fs.String("structures", "", "ignored")
+	fs.String("kinds", "", "ignored")
 	fs.Parse(args)
 	f, err := os.Create(*out)
 	if err != nil {
@@ -774,6 +781,13 @@ func cmdBSI(args []string) {
 	cv := coverOut{Ops: map[string]int{}, Kinds: map[string]int{}}
 	pool32 := []uint64{0, 1, 2, 65535, 65536, 70000, 131071, 1 << 20, 0xFFFFFFFE, 0xFFFFFFFF, 12345, 4096}
 	pool64 := []uint64{0, 1, 65535, 65536, 0xFFFFFFFF, 1 << 32, 1<<32 + 1, 1<<40 + 5, 1 << 63, ^uint64(0), ^uint64(0) - 1, 77}
+	if *scripts != "" {
+		replayBSI(*scripts, *seed, *first, *only, *mod, *rem, *sample, *opf, w, &cv, pool32, pool64)
+		w.Flush()
+		f.Close()
+		writeCover(*cover, cv)
+		return
+	}
 	for t := 0; t < *traces; t++ {
 		id := *first + t
 		if *only != 0 && id != *only {
@@ -981,4 +995,96 @@ func cmdBSI(args []string) {
 	w.Flush()
 	f.Close()
 	writeCover(*cover, cv)
+}
+
+type bsiScript struct {
+	Calls []BCall `json:"calls"`
+}
+
+var bsiUpdateOps = map[string]bool{"BSetValue": true, "BSetMany": true, "BClear": true, "BRetain": true, "BParOr": true, "BAdd": true,
+	"BClone": true, "BRetainSet": true, "BMarshalRT": true, "BStreamRT": true}
+
+// replayBSI: every TLC-generated call list is executed on a real index under a random concretisation
+// (implementation, value scaling, big-value API, auto-sized or fixed-width, column ids).
+func replayBSI(path string, seed int64, first, only, mod, rem int, sample float64, opf string, w *bufio.Writer, cv *coverOut, pool32, pool64 []uint64) {
+	in, err := os.Open(path)
+	if err != nil {
+		panic(err)
+	}
+	sc := bufio.NewScanner(in)
+	sc.Buffer(make([]byte, 1<<20), 1<<24)
+	sel := rand.New(rand.NewSource(seed))
+	id := first - 1
+	lineno := -1
+	for sc.Scan() {
+		line := sc.Bytes()
+		if len(line) == 0 || line[0] != '{' {
+			continue
+		}
+		lineno++
+		id++
+		keep := sel.Float64() < sample
+		if lineno%mod != rem || !keep || (only != 0 && id != only) {
+			continue
+		}
+		var s bsiScript
+		if err := jsonUnmarshal(line, &s); err != nil {
+			panic(err)
+		}
+		last := s.Calls[len(s.Calls)-1].Op
+		if (opf == "update" && !bsiUpdateOps[last]) || (opf == "query" && bsiUpdateOps[last]) {
+			continue
+		}
+		r := rand.New(rand.NewSource(seed*6700417 + int64(id)))
+		e := &bsiExec{w: w, tr: id, r: r, cover: map[string]int{}, nc: 3}
+		e.impl = pick(r, []int{32, 64, 64})
+		e.k = pick(r, []uint{0, 0, 1, 3, 7, 20, 31, 40, 55})
+		if e.impl == 64 && r.Intn(6) == 0 {
+			e.k, e.big = 70, true
+		} else if e.impl == 64 && r.Intn(5) == 0 {
+			e.big = true
+		}
+		pool := pool32
+		if e.impl == 64 {
+			pool = pool64
+		}
+		perm := r.Perm(len(pool))
+		for i := 0; i < e.nc+2; i++ {
+			e.colID = append(e.colID, pool[perm[i]])
+		}
+		cv.Kinds[fmt.Sprintf("impl%d", e.impl)]++
+		e.emit(map[string]any{"op": "BU", "tr": id, "i": 0, "nc": e.nc, "impl": e.impl, "k": e.k, "big": e.big, "cols": e.colID})
+		for sl := 1; sl <= 3; sl++ {
+			e.slots[sl] = e.newIndex(true)
+		}
+		for sl := 1; sl <= 3; sl++ {
+			e.run(BCall{Op: "BNew", Dst: sl, Auto: r.Intn(3) != 0})
+		}
+		for _, c := range s.Calls {
+			if c.Op == "End" {
+				continue
+			}
+			if e.impl == 32 && (c.Op == "BRetain" || c.Op == "BCompareBSI" || c.Op == "BStreamRT" || c.Op == "BBatchEqualValues") {
+				continue
+			}
+			if (c.Op == "BTranspose" || c.Op == "BTransposeCounts") && !(e.impl == 64 && e.k <= 55 || e.k <= 28) {
+				continue
+			}
+			if c.Op == "BCompare" && !e.auto[c.X] {
+				// fixed-width index: any constant of the domain is in range; keep the script's (hull) constants
+			}
+			if c.Par == 2 {
+				c.Par = pick(r, []int{0, 1, 2, 3, 16})
+			}
+			if c.Op == "BCompare" && c.All && r.Intn(3) == 0 {
+				c.Own = true
+			}
+			e.run(c)
+		}
+		cv.Traces++
+		cv.Events += e.events
+		for k, v := range e.cover {
+			cv.Ops[k] += v
+		}
+	}
 }
